@@ -114,6 +114,8 @@ fn check_select(mask: u32, ord: usize, lock: usize) -> Option<Witness> {
     if bit(11) { e.q(" LIMIT 5"); }
     if bit(12) { e.q(" OFFSET 6"); }
     if bit(13) { e.q(match lock { 0 => " FOR UPDATE", 1 => " FOR SHARE", 2 => " FOR UPDATE OF `t` NOWAIT", _ => " FOR UPDATE SKIP LOCKED" }); }
+    // the statement is finished the way users do: `.take()` for odd masks (it must move every clause), the builder itself otherwise
+    let s = if mask & 1 != 0 || mask % 5 == 0 { s.take() } else { s };
     verdict(format!("select mask={mask} ord={ord} lock={lock}"), &e, s.to_string(MysqlQueryBuilder), s.to_string(PostgresQueryBuilder))
 }
 
@@ -204,6 +206,12 @@ fn check_update(nfrom: usize, mask: u32) -> Option<Witness> {
     if mask & 2 != 0 { u.order_by(a("c"), Order::Asc); }
     let label = format!("update from {nfrom} tables mask {mask:#b}");
     let (my, pg) = (u.to_string(MysqlQueryBuilder), u.to_string(PostgresQueryBuilder));
+    // more than one extra table (MySQL drops all but the first: recorded finding): whatever else, the condition is rendered ONCE
+    for (name, sql) in [("mysql", &my), ("postgres", &pg)] {
+        if mask & 1 != 0 && sql.matches("\"c\" > 1").count() + sql.matches("`c` > 1").count() != 1 {
+            return Some(Witness { property: "C08", input: format!("update cond {nfrom} tables mask {mask:#b}"), observed: format!("{name}: {sql}"), expected: "the condition is rendered exactly once".into() });
+        }
+    }
     for (name, sql) in [("mysql", &my), ("postgres", &pg)] {
         for n in names.iter().take(nfrom) {
             let q = if name == "mysql" { '`' } else { '"' };
@@ -270,6 +278,11 @@ fn check_misc(k: usize) -> Option<Witness> {
             let fr = match k { 5 => "ROWS BETWEEN 2 PRECEDING AND 3 FOLLOWING", 6 => "RANGE 1 PRECEDING", _ => "ROWS BETWEEN UNBOUNDED PRECEDING AND CURRENT ROW" };
             e.q(&format!("SELECT SUM(`x`) OVER ( PARTITION BY `g` ORDER BY `x` ASC {fr} ) AS `s` FROM `t`"));
             (q.to_string(MysqlQueryBuilder), q.to_string(PostgresQueryBuilder)) }
+        // a join whose condition group is empty still has its ON predicate (empty all = TRUE, empty any = FALSE)
+        8 | 9 => { let c = if k == 8 { Cond::all() } else { Cond::any() };
+               let q = Query::select().column(a("c")).from(a("t")).inner_join(a("u"), c).to_owned();
+               e.q(if k == 8 { "SELECT `c` FROM `t` INNER JOIN `u` ON TRUE" } else { "SELECT `c` FROM `t` INNER JOIN `u` ON FALSE" });
+               (q.to_string(MysqlQueryBuilder), q.to_string(PostgresQueryBuilder)) }
         _ => return None,
     };
     verdict(format!("misc k={k}"), &e, my, pg)
@@ -281,7 +294,7 @@ fn kv(label: &str, key: &str) -> Option<u32> {
 
 pub fn check_one(label: &str) -> Option<Witness> {
     std::panic::set_hook(Box::new(|_| {}));
-    if label.starts_with("update from") {
+    if label.starts_with("update from") || label.starts_with("update cond") {
         let n: usize = label.split(' ').nth(2)?.parse().ok()?;
         let m = label.rsplit("0b").next().and_then(|b| u32::from_str_radix(b, 2).ok())?;
         return check_update(n, m);
@@ -310,7 +323,7 @@ pub fn search(_obl: &str) -> Vec<Witness> {
     for nfrom in 0..3usize { for mask in 0..16u32 { run!(check_update(nfrom, mask)); } }
     for mask in 0..32u32 { run!(check_delete(mask)); }
     for mask in 0..8u32 { run!(check_with(mask)); }
-    for k in 0..8usize { run!(check_misc(k)); }
+    for k in 0..10usize { run!(check_misc(k)); }
     for shape in 0..4usize { for conflict in 0..9usize { for returning in 0..3usize { for with in [false, true] { run!(check_insert(shape, conflict, returning, with)); } } } }
     // ORDER BY item kinds x NULLS forms and lock forms, alone and with every other clause present
     for ord in 0..9usize { for lock in 0..4usize { for mask in [1 << 10, (1 << 10) | (1 << 13), (1 << SEL_BITS) - 1] { run!(check_select(mask, ord, lock)); } } }
